@@ -324,6 +324,7 @@ def execute(trace):
         cache = {}
         prev_run = None
         nontrivial = False
+        produced = set()  # paths (relative to tree/) that some earlier run of this history created
         for si, st in enumerate(trace["steps"]):
             op = st["op"]
             if op == "put":
@@ -333,6 +334,7 @@ def execute(trace):
                 except (NotADirectoryError, FileExistsError, IsADirectoryError):
                     pass
                 original_paths.add(st["path"])
+                produced.discard(st["path"])
                 events.append(("put", st["path"]))
                 prev_run = None
                 continue
@@ -353,8 +355,10 @@ def execute(trace):
                 if not os.path.lexists(os.path.join(tdir, st["file"])):
                     events.append(("filerun-skipped", st["file"]))
                     continue
+                snap0 = set(seams.snapshot(tdir))
                 res = base.in_fork(cli_run.cli_exec, root, "tree/" + st["file"], st["settings"], cwd_rel=env["cwd"],
-                                   tty=env["tty"], argform=env["argform"], timeout=120)
+                                   tty=env["tty"], argform=env["argform"] if env["argform"] != "noarg" else "abs", timeout=120)
+                produced |= {k for k in seams.snapshot(tdir) if k not in snap0 and not k.endswith("cm_colors_report.html")}
                 events.append(("filerun", st["file"], res["exit"], res["out"], res["io"]))
                 steps_n += len(res["io"])
                 prev_run = None
@@ -451,6 +455,9 @@ def execute(trace):
             for p in sorted(opened):
                 if p.endswith("_cm.css"):
                     V("output-consumed", si, path=p)
+                elif p.startswith("tree/") and p[5:] in produced:
+                    V("output-consumed", si, path=p, note="a file written by an earlier run was read as an input")
+            produced |= {k for k in after if k not in before and not k.endswith("cm_colors_report.html")}
             for rel in after:
                 if rel.endswith("_cm_cm.css") and rel not in before:
                     V("output-consumed", si, path=rel, note="an output of an output appeared")
@@ -460,11 +467,11 @@ def execute(trace):
             cur = (target, base.canon(st["settings"]))
             if prev_run and prev_run[0] == cur and not st.get("faults") and not prev_run[2]:
                 bump("repeat_run_checked")
-                a = {k: v for k, v in after.items() if k.endswith("_cm.css")}
+                a = {k: v for k, v in after.items() if not k.endswith("cm_colors_report.html")}
                 if a != prev_run[1]:
                     diff = sorted(k for k in set(a) | set(prev_run[1]) if a.get(k) != prev_run[1].get(k))
                     V("not-idempotent", si, files=diff)
-            prev_run = (cur, {k: v for k, v in after.items() if k.endswith("_cm.css")}, bool(st.get("faults")))
+            prev_run = (cur, {k: v for k, v in after.items() if not k.endswith("cm_colors_report.html")}, bool(st.get("faults")))
         if trace.get("enum"):
             bump("enum_runs")
     finally:
